@@ -25,6 +25,7 @@ mod kindwire;
 mod c32;
 mod c33;
 mod c34;
+mod c03;
 mod c30;
 mod c31;
 mod gens;
@@ -75,6 +76,7 @@ const EXECS: &[Exec] = &[
     c30::exec,
     c31::exec,
     c34::exec,
+    c03::exec,
 ];
 
 /// Run one case (`op` + inputs) on the implementation: the first module that recognises the op answers.
@@ -123,6 +125,7 @@ fn generate(prop: &str, sink: &mut sink::Sink, rng: &mut rng::Rng, n: u64) -> bo
         "C30" => c30::generate(sink, rng, n),
         "C31" => c31::generate(sink, rng, n),
         "C34" => c34::generate(sink, rng, n),
+        "C03" => c03::generate(sink, rng, n),
         _ => return false,
     }
     true
